@@ -80,7 +80,11 @@ func main() {
 	rng := run.Rand("c03-programs")
 	var specs []emitbatch.ProgSpec
 	for i := 0; i < nProgs; i++ {
-		specs = append(specs, emitbatch.ProgSpec{Sub: fmt.Sprintf("p%d", i), Seed: rng.Int63(), Cfg: "core"})
+		cfg := "core"
+		if i%2 == 1 {
+			cfg = "core+argmods" // method arguments with optional / required modifiers and defaults
+		}
+		specs = append(specs, emitbatch.ProgSpec{Sub: fmt.Sprintf("p%d", i), Seed: rng.Int63(), Cfg: cfg})
 	}
 	// the fixed witness program of the known dependency defect runs on every invocation
 	specs = append(specs, emitbatch.ProgSpec{Sub: fmt.Sprintf("p%d", nProgs), Seed: 0, Cfg: "witness:specialdouble"})
